@@ -28,6 +28,8 @@ type target struct {
 	Out    string   `json:"out"`
 	Funcs  []string `json:"funcs"`
 	Consts []string `json:"consts"`
+	Cases  *casesSpec `json:"cases"` // stack-effect mode (stackeff.go)
+	Lower  *lowerSpec `json:"lower"` // opcode lowering table (stackeff.go)
 }
 
 type funcMeta struct {
@@ -67,6 +69,7 @@ type fnTr struct {
 	named     []types.Object // named results
 	nres      int
 	ptrParams map[types.Object]bool
+	se        *seState // non-nil in stack-effect mode
 }
 
 func intInfo(t types.Type) (w int, signed bool, ok bool) {
@@ -330,6 +333,24 @@ func (f *fnTr) binary(x *ast.BinaryExpr) string {
 		return "(Z.ldiff " + a + " " + b + ")"
 	case token.QUO, token.REM:
 		tv := info.Types[x.Y]
+		if tv.Value == nil && f.se != nil {
+			// variable divisor: Go panics at run time when it is zero; the guard is hoisted before the statement
+			w, sg, ok := intInfo(t)
+			if !ok || w == 0 {
+				fail(f.pos(x), "division on unsupported type %s", t)
+			}
+			f.se.divGuards = append(f.se.divGuards, b)
+			if sg {
+				if x.Op == token.QUO {
+					return wrapTo(t, "(Z.quot "+a+" "+b+")")
+				}
+				return wrapTo(t, "(Z.rem "+a+" "+b+")")
+			}
+			if x.Op == token.QUO {
+				return "(" + a + " / " + b + ")"
+			}
+			return "(" + a + " mod " + b + ")"
+		}
 		if tv.Value == nil || constant.Sign(tv.Value) <= 0 {
 			fail(f.pos(x), "division only by a positive constant")
 		}
@@ -383,6 +404,14 @@ func (f *fnTr) binary(x *ast.BinaryExpr) string {
 
 func (f *fnTr) call(x *ast.CallExpr) string {
 	info := f.p.info
+	if s, ok := f.intrinsic(x); ok {
+		return s
+	}
+	if f.se != nil {
+		if n, ok := f.se.popNames[x]; ok {
+			return n
+		}
+	}
 	// conversion?
 	if tv, ok := info.Types[x.Fun]; ok && tv.IsType() {
 		if len(x.Args) != 1 {
@@ -937,7 +966,11 @@ func main() {
 		}
 		var sb strings.Builder
 		sb.WriteString("(* GENERATED by tools/go2coq from " + t.Pkg + " of the working tree. DO NOT EDIT. *)\n")
-		sb.WriteString("From Verif Require Import Lib.GoInt.\nOpen Scope Z_scope.\n\n")
+		if t.Cases != nil || t.Lower != nil {
+			sb.WriteString("From Verif Require Import Lib.GoInt Lib.GoBits Lib.StackEff.\nOpen Scope Z_scope.\n\n")
+		} else {
+			sb.WriteString("From Verif Require Import Lib.GoInt.\nOpen Scope Z_scope.\n\n")
+		}
 		for _, c := range t.Consts {
 			obj := pkg.Scope().Lookup(c)
 			cn, ok := obj.(*types.Const)
@@ -971,6 +1004,32 @@ func main() {
 				sb.WriteString(def + "\n")
 				meta[t.Out] = append(meta[t.Out], m)
 			}()
+		}
+		guarded := func(what string, fn func() string) {
+			defer func() {
+				if r := recover(); r != nil {
+					if te, ok := r.(trErr); ok {
+						fmt.Fprintf(os.Stderr, "go2coq: %s %s: %s\n", t.Pkg, what, te.msg)
+						status = 1
+						return
+					}
+					panic(r)
+				}
+			}()
+			sb.WriteString(fn())
+		}
+		if t.Cases != nil {
+			for _, kind := range t.Cases.Kinds {
+				kind := kind
+				guarded("case "+kind, func() string { return p.translateCase(t.Cases, decls, kind) })
+			}
+			guarded("dispatch", func() string { return p.caseDispatch(t.Cases) })
+		}
+		if t.Lower != nil {
+			for _, opc := range t.Lower.Opcodes {
+				opc := opc
+				guarded("lowering "+opc, func() string { return p.translateLower(t.Lower, decls, opc) })
+			}
 		}
 		if err := os.WriteFile(filepath.Join(*out, t.Out+".v"), []byte(sb.String()), 0o644); err != nil {
 			panic(err)
